@@ -6,15 +6,17 @@
 (* wsess  one writer session (format, API script) under the fault plan     *)
 (*        (k, kind):  sop / slen / sret  the sink call log (0 write, 1     *)
 (*        flush; bytes offered; bytes accepted, -1 error, -2 interrupted), *)
-(*        api / ares / aat  the API calls, their result class and the      *)
-(*        number of sink calls made when each returned, and the pure       *)
+(*        api / ares / aat / aterm  the API calls, their result class, the *)
+(*        number of sink calls made when each returned and whether the     *)
+(*        call is a data call (0), a terminating call returning a Result   *)
+(*        (1) or one that cannot report (2), and the pure                  *)
 (*        projections  acc_len, full_len, acc_digest (digest of the        *)
 (*        accepted bytes), full_prefix_digest (digest of the first acc_len *)
 (*        bytes of the fault-free output; Avro container: the 16 random    *)
 (*        sync bytes are blanked in both).                                 *)
 (*        The sink log is read through FaultOps!LogState / SinkLogLegal (the sink   *)
 (*        answered as the model says, accepted acc_len bytes, the fault    *)
-(*        was consumed or not), then W0-W4 are judged, plus W5 (Parquet:   *)
+(*        was consumed or not), then W0-W4, W7 (retried finish) are judged, plus W5 (Parquet:   *)
 (*        no successful close after a failed row group) and W6 (rb: what   *)
 (*        the format's reader returns for the accepted bytes when the      *)
 (*        terminating call succeeded after a reported failure).            *)
@@ -34,7 +36,8 @@ Plan(ev) == [k |-> ev.k, kind |-> ev.kind]
 (* ------------------------------------------------------------- writers *)
 LogShape(ev) ==
   /\ Len(ev.sop) = Len(ev.slen) /\ Len(ev.sop) = Len(ev.sret)
-  /\ Len(ev.api) = Len(ev.ares) /\ Len(ev.api) = Len(ev.aat)
+  /\ Len(ev.api) = Len(ev.ares) /\ Len(ev.api) = Len(ev.aat) /\ Len(ev.api) = Len(ev.aterm)
+  /\ \A i \in DOMAIN ev.aterm : ev.aterm[i] \in {0, 1, 2}
   /\ \A i \in DOMAIN ev.aat : /\ ev.aat[i] >= 0 /\ ev.aat[i] <= Len(ev.sop)
                               /\ i > 1 => ev.aat[i - 1] <= ev.aat[i]
   /\ ev.kind \in Kinds
@@ -46,19 +49,22 @@ Outcome(res) ==
 
 WSum(ev, st, res) ==
   [class |-> FaultClass(Plan(ev), st), redundant |-> st.redundant, k |-> ev.k,
-   res |-> res, at |-> ev.aat,
+   res |-> res, at |-> ev.aat, term |-> ev.aterm,
    prefix |-> ev.acc_len <= ev.full_len /\ ev.acc_digest = ev.full_prefix_digest,
    complete |-> ev.acc_len = ev.full_len /\ ev.acc_digest = ev.full_prefix_digest]
 
 (* the session as judged with the API results `res`: sink log, W0-W4          *)
-WBase(ev, res) ==
+WBaseBut7(ev, res) ==
   /\ LogShape(ev)
   /\ SinkLogLegal(Plan(ev), ev.sop, ev.slen, ev.sret)   \* the sink behaved as the model's sink
   /\ LET st == LogState(Plan(ev), ev.sop, ev.slen, ev.sret) IN
      /\ st.acc = ev.acc_len            \* it accepted exactly acc_len bytes
      /\ st.fired = ev.fired
-     /\ WriterOk(WSum(ev, st, res))
+     /\ WriterOkBut7(WSum(ev, st, res))
   /\ ev.outcome = Outcome(ev.ares)
+
+Retry7(ev, res) == W7(WSum(ev, LogState(Plan(ev), ev.sop, ev.slen, ev.sret), res))
+WBase(ev, res) == WBaseBut7(ev, res) /\ Retry7(ev, res)
 
 (* W5 - Parquet (footer indexes every row group): a footer is never written   *)
 (* after a row group that failed.  When a data call (write / flush: they      *)
@@ -116,7 +122,25 @@ PqAsyncCloseAfterFailure(ev) ==
   /\ ~PqStrict(ev, ev.ares)
   /\ ev.acc_len < ev.full_len
 
+(* Known finding C18-ipc-finish-retry-duplicates: arrow_ipc FileWriter /      *)
+(* StreamWriter::finish sets `finished` only at its end and starts over with  *)
+(* write_eos when it is called again after a failure: a retry that succeeds   *)
+(* leaves a second end-of-stream marker (file writer: also the first, possibly *)
+(* partial, footer copy) in the output - more bytes than the fault-free       *)
+(* output, not the same bytes.  Identified by: format ipc_*, a one-shot fault  *)
+(* in the terminating phase (every reported failure is a terminating call's),  *)
+(* W7 is the only rule that fails, bytes were added (none missing:            *)
+(* acc_len > full_len) and the format's reader still returns every written    *)
+(* row from the result.                                                        *)
+IpcFinishRetryDup(ev) ==
+  /\ ev.fmt \in {"ipc_file", "ipc_stream"} /\ ev.kind \in {"error_once", "zero", "interrupted"}
+  /\ WBaseBut7(ev, ev.ares) /\ PqStrict(ev, ev.ares) /\ ReadBackOk(ev)
+  /\ ~Retry7(ev, ev.ares)
+  /\ ev.acc_len > ev.full_len
+  /\ ev.rb = "ok" /\ ev.rb_rows = ev.rb_written
+
 WKF(ev) == IF CsvIntoInnerPanic(ev) THEN "C18-csv-into-inner-unwrap"
+           ELSE IF IpcFinishRetryDup(ev) THEN "C18-ipc-finish-retry-duplicates"
            ELSE IF PqAsyncCloseAfterFailure(ev) THEN "C18-pq-async-close-after-failed-write"
            ELSE ""
 
